@@ -60,10 +60,21 @@ class FTag:
             ok = True
             for k, want in list((attrs or {}).items()) + list(kw.items()):
                 have = t.attrs.get(k)
-                if callable(want):
+                if isinstance(want, int) and isinstance(have, int):
+                    # (checked first: callable() on a symbolic int would make CrossHair realise it)
+                    if not (have == want):
+                        ok = False
+                elif not isinstance(want, (int, str)) and callable(want):
                     if have is None or not want(have):
                         ok = False
-                elif have is None or not (have == want or str(have) == str(want)):
+                elif have is None:
+                    ok = False
+                elif isinstance(have, str) != isinstance(want, str):
+                    # bs4 compares attribute values as text; only convert when the kinds differ
+                    # (str() of a symbolic int would make CrossHair enumerate values)
+                    if str(have) != str(want):
+                        ok = False
+                elif not (have == want):
                     ok = False
             if ok:
                 out.append(t)
